@@ -245,6 +245,18 @@ def decode_member(desc, tier, seed, props=('C01', 'C03', 'C07', 'C16'), encoders
                         if k and v is not None:
                             ctx.check('C16.reported-equals-stored', abs(float(xi[k[0]]) - float(v)) < 1e-9 and act[k[0]],
                                       wit, f'{d.name}: stored {v}, reported {xi[k[0]]} active={act[k[0]]}', nt)
+                        if k and v is not None and len(reached) <= 6:
+                            # the instance keeps the value its vector reported when a COPY of it is given another one
+                            try:
+                                other = (int(v) + 1) % len(d.options) if d.options else (d.bounds[0] if abs(v - d.bounds[0]) > 1e-9 else d.bounds[1])
+                                cpy = inst.copy()
+                                cpy.set_des_var_value(n, other)
+                                v_after = inst.des_var_values.get(n)
+                                ctx.check('C16.instance-keeps-reported-value-when-a-copy-is-edited',
+                                          v_after is not None and abs(float(v_after) - float(v)) < 1e-9, wit,
+                                          f'{d.name}: instance held {v}; after set_des_var_value({other}) on a copy it holds {v_after}', nt)
+                            except Exception as e:  # noqa
+                                ctx.check('C16.instance-keeps-reported-value-when-a-copy-is-edited', False, wit, f'{type(e).__name__}: {e}', nt)
                     elif k:
                         ctx.check('C16.absent-node-inactive', (not act[k[0]]) and
                                   abs(float(xi[k[0]]) - canonical(dvs[k[0]])) < 1e-9, wit,
